@@ -390,4 +390,6 @@ def check(fx, rep, tier):
     check_derive(fx, rep)
     check_no_params(fx, rep)
     check_proxy_extract(fx, rep)
+    import imports as _imp
+    _imp.layer(fx, rep, 'C05')
     return META
